@@ -156,6 +156,42 @@ pub fn config_id_cases(mock: &SessionMock, rng: &mut Rng) -> Vec<Case> {
             });
         }
     }
+    // both layers at once: what the environment says overrides what the file says
+    for (i, (file_id, env_id)) in [("from-file", "from-env"), ("", "from-env"), ("from-file", "")].iter().enumerate() {
+        let base = dir.join(format!("both{i}"));
+        std::fs::write(base.with_extension("yaml"), format!("adapters:\n  authentication:\n    mojang:\n      serverid: {}\n", serde_json::to_string(file_id).unwrap())).unwrap();
+        // SAFETY: as above
+        unsafe { std::env::set_var("CONFIG_FILE", &base); std::env::set_var("PASSAGE_ADAPTERS_AUTHENTICATION_MOJANG_SERVERID", env_id); }
+        let cfg = passage::config::Config::read();
+        unsafe { std::env::remove_var("CONFIG_FILE"); std::env::remove_var("PASSAGE_ADAPTERS_AUTHENTICATION_MOJANG_SERVERID"); }
+        let secret = rng.bytes(16);
+        let public = rng.bytes(162);
+        let mut why = vec![];
+        *reply.lock().unwrap() = Reply::Profile;
+        captured.lock().unwrap().clear();
+        let mut seen: Option<Vec<u8>> = None;
+        match cfg {
+            Err(e) => why.push(format!("configuration with server id {file_id:?} in the file and {env_id:?} in the environment was not readable: {e}")),
+            Ok(cfg) => match rt.block_on(passage::adapter::authentication::DynAuthenticationAdapter::from_config(cfg.adapters.authentication)) {
+                Err(e) => why.push(format!("adapter factory failed: {e}")),
+                Ok(adapter) => {
+                    let client: std::net::SocketAddr = "192.0.2.1:5".parse().unwrap();
+                    let uid = uuid::Uuid::from_u128(7);
+                    let _ = rt.block_on(adapter.authenticate(&client, ("h", 1), 767, ("Player", &uid), &secret, &public));
+                    let lines = captured.lock().unwrap().clone();
+                    if let Some(t) = lines.first().and_then(|l| l.split(' ').nth(1)) { let (_, params) = parse_target(t.as_bytes()); seen = params.into_iter().find(|(k, _)| k == b"serverId").map(|(_, v)| v); }
+                }
+            },
+        }
+        let want = crate::c11::ref_hash(env_id, &secret, &public);
+        if seen.as_deref() != Some(want.as_bytes()) { why.push(format!("server id {file_id:?} in the file, {env_id:?} in the environment (which takes precedence): the request carried serverId={:?}, the hash for the environment's id is {want}", seen.as_ref().map(|h| String::from_utf8_lossy(h).to_string()))); }
+        cases.push(Case {
+            request: format!("c11.hash {} {} {}", hex(env_id.as_bytes()), hex(&secret), hex(&public)),
+            observed: seen.as_ref().map_or("no-request".into(), |h| hex(h)),
+            oracle: if why.is_empty() { None } else { Some(why.join("; ")) },
+            class: "config-both-layers".into(),
+        });
+    }
     let _ = std::fs::remove_dir_all(&dir);
     cases
 }
@@ -172,7 +208,7 @@ pub fn run(a: &Args) {
             0 => rng.pick(&specials).to_string(),
             1 => format!("{}{}{}", rng.pick(&["Player", "a", ""]), rng.pick(&specials), rng.pick(&specials)),
             2 => (0..rng.range(1, 16)).map(|_| char::from_u32(rng.range(1, 0x7f) as u32).unwrap()).collect(),
-            _ => rng.pick(&["Notch", "jeb_", "Hydrofin", "Player_16_chars__"]).to_string(),
+            _ => rng.pick(&["Notch", "jeb_", "Hydrofin", "Player_16_chars__", ""]).to_string(),
         };
         let server_id: String = rng.pick(&["", "passage", "srv & id"]).to_string();
         let secret = rng.bytes(16);
